@@ -164,27 +164,29 @@ func (f *file) asyncRead(b []byte, readAll bool, cb AsyncCallback) {
 }
 
 func (f *file) asyncReadNow(b []byte, readSoFar int, readAll bool, cb AsyncCallback) {
-	n, err := f.Read(b[readSoFar:])
-	readSoFar += n
+	for {
+		n, err := f.Read(b[readSoFar:])
+		readSoFar += n
 
-	// f is a nonblocking fd so if err == ErrWouldBlock
-	// then we need to schedule an async read.
+		// Handle short reads and EOF.
+		//
+		// Caller wants all bytes, we got less: keep reading until the buffer is full, the read would block (then we
+		// reschedule) or an error occurs. A short read must not be reported as a successful ReadAll.
+		if err == nil && !(readAll && readSoFar != len(b)) {
+			cb(nil, readSoFar)
+			return
+		}
 
-	if err == nil && !(readAll && readSoFar != len(b)) {
-		// If readAll == true then read fully without errors.
-		// If readAll == false then read some without errors.
-		// We are done.
-		cb(nil, readSoFar)
+		if err == nil {
+			continue
+		}
+
+		if err == sonicerrors.ErrWouldBlock {
+			f.scheduleRead(readSoFar, cb)
+		} else {
+			cb(err, readSoFar)
+		}
 		return
-	}
-
-	// handles (readAll == false) and (readAll == true && readSoFar != len(b)).
-	if err == sonicerrors.ErrWouldBlock {
-		// If readAll == true then read some without errors.
-		// We schedule an asynchronous read.
-		f.scheduleRead(readSoFar, cb)
-	} else {
-		cb(err, readSoFar)
 	}
 }
 
@@ -227,21 +229,26 @@ func (f *file) asyncWrite(b []byte, writeAll bool, cb AsyncCallback) {
 }
 
 func (f *file) asyncWriteNow(b []byte, wroteSoFar int, writeAll bool, cb AsyncCallback) {
-	n, err := f.Write(b[wroteSoFar:])
-	wroteSoFar += n
+	for {
+		n, err := f.Write(b[wroteSoFar:])
+		wroteSoFar += n
 
-	if err == nil && !(writeAll && wroteSoFar != len(b)) {
-		// If writeAll == true then we wrote fully without errors.
-		// If writeAll == false then we wrote some without errors.
-		cb(nil, wroteSoFar)
+		if err == nil && !(writeAll && wroteSoFar != len(b)) {
+			cb(nil, wroteSoFar)
+			return
+		}
+
+		// A short write must not be reported as a successful WriteAll: keep writing.
+		if err == nil {
+			continue
+		}
+
+		if err == sonicerrors.ErrWouldBlock {
+			f.scheduleWrite(wroteSoFar, cb)
+		} else {
+			cb(err, wroteSoFar)
+		}
 		return
-	}
-
-	// Handles (writeAll == false) and (writeAll == true && wroteSoFar != len(b)).
-	if err == sonicerrors.ErrWouldBlock {
-		f.scheduleWrite(wroteSoFar, cb)
-	} else {
-		cb(err, wroteSoFar)
 	}
 }
 
